@@ -5,7 +5,7 @@
                                 processes (different partitions of the same seeds) and the complete result lines (log hash,
                                 schedule hash, steps, every counter, abstract states) are diffed; the process-level simulator of
                                 C46 is run under two PYTHONHASHSEED values.
-  selftest.py seeded            every change kept under /verif/seeded/<id>/ is applied to /repo in turn, the quick check of the
+  selftest.py seeded [name...]  every change kept under /verif/seeded/<id>/ is applied to /repo in turn, the quick check of the
                                 property it breaks is run (it must exit 1 with a VIOLATION line) and /repo is restored.
 """
 import concurrent.futures, json, os, subprocess, sys, time
@@ -90,12 +90,20 @@ def determinism(n):
     return 1 if bad else 0
 
 
-def seeded():
+def seeded(only=()):
+    """only: names (or prefixes) of the changes to run; the results are merged into seeded/RESULTS.json after every change, so that an
+    interrupted pass can be resumed with the names that are still missing"""
     root = os.path.join(VERIF, "seeded")
+    resfile = os.path.join(root, "RESULTS.json")
+    known = {}
+    if only and os.path.exists(resfile):
+        known = {r["change"]: r for r in json.load(open(resfile))}
     res = []
     for d in sorted(os.listdir(root)) if os.path.isdir(root) else []:
         meta = os.path.join(root, d, "meta.json")
         if not os.path.exists(meta):
+            continue
+        if only and not any(d == o or d.startswith(o + "-") for o in only):
             continue
         m = json.load(open(meta))
         pid = m["property"]
@@ -106,9 +114,10 @@ def seeded():
         ok = p.returncode == 1 and bool(viol)
         res.append((d, pid, ok, cls, time.time() - t0))
         log("seeded %-40s %s: %s %s (%.0fs)" % (d, pid, "DETECTED" if ok else "MISSED (exit %d)" % p.returncode, cls, time.time() - t0))
+        known[d] = {"change": d, "property": pid, "detected": ok, "classes": cls, "seconds": round(time.time() - t0)}
+        json.dump([known[k] for k in sorted(known)], open(resfile, "w"), indent=1)
     missed = [r for r in res if not r[2]]
     log("seeded: %d changes, %d detected, %d missed" % (len(res), len(res) - len(missed), len(missed)))
-    json.dump([{"change": r[0], "property": r[1], "detected": r[2], "classes": r[3], "seconds": round(r[4])} for r in res], open(os.path.join(VERIF, "seeded", "RESULTS.json"), "w"), indent=1)
     return 1 if missed else 0
 
 
@@ -117,5 +126,5 @@ if __name__ == "__main__":
     if what == "determinism":
         sys.exit(determinism(int(sys.argv[2]) if len(sys.argv) > 2 else 2000))
     if what == "seeded":
-        sys.exit(seeded())
+        sys.exit(seeded(tuple(sys.argv[2:])))
     print(__doc__); sys.exit(2)
